@@ -782,7 +782,7 @@ func (self PathNode) marshal(p *binary.BinaryProtocol, rootLayer bool, opts *Opt
 			}
 			p.Buf = binary.FinishSpeculativeLength(p.Buf, pos)
 		}
-	case proto.BOOL, proto.INT32, proto.SINT32, proto.UINT32, proto.FIX32, proto.SFIX32, proto.INT64, proto.SINT64, proto.UINT64, proto.FIX64, proto.SFIX64, proto.FLOAT, proto.DOUBLE, proto.STRING, proto.BYTE:
+	case proto.BOOL, proto.ENUM, proto.INT32, proto.SINT32, proto.UINT32, proto.FIX32, proto.SFIX32, proto.INT64, proto.SINT64, proto.UINT64, proto.FIX64, proto.SFIX64, proto.FLOAT, proto.DOUBLE, proto.STRING, proto.BYTE:
 		p.Buf = append(p.Buf, self.Node.raw()...)
 	case proto.UNKNOWN:
 		// unknown bytes can also be marshaled, but we don't know its real type, so we can't read it, just skip it.
